@@ -699,6 +699,12 @@ func globalNonNil(g *ssa.Global, memo nonNilMemo, depth int) bool {
 // PathAvoiding reports whether some path from the start of block `from` reaches instruction
 // `to` without executing any instruction in `must` (a path may not re-enter `from`'s start).
 func PathAvoiding(from *ssa.BasicBlock, must []ssa.Instruction, to ssa.Instruction) bool {
+	return PathAvoidingEdges(from, must, to, nil)
+}
+
+// PathAvoidingEdges is PathAvoiding on the graph without the given edges (paths a rule
+// excludes by their condition, e.g. "the event is already marked redacted").
+func PathAvoidingEdges(from *ssa.BasicBlock, must []ssa.Instruction, to ssa.Instruction, removed map[Edge]bool) bool {
 	tb := to.Block()
 	ti := instrIndex(to)
 	blockedAt := map[*ssa.BasicBlock]int{} // first index of a must instruction in the block
@@ -723,6 +729,9 @@ func PathAvoiding(from *ssa.BasicBlock, must []ssa.Instruction, to ssa.Instructi
 			continue
 		}
 		for _, s := range b.Succs {
+			if removed[Edge{b, s}] {
+				continue
+			}
 			if !seen[s] {
 				seen[s] = true
 				work = append(work, s)
